@@ -8,7 +8,9 @@ use std::sync::Arc;
 // ------------------------------------------------------------------ environment: ghost state machine (assumed contracts of the callees)
 /// ghost: `tours_version` changes whenever the set of tours (or their content) changes; `aggregates_for` records for which goal and
 /// which version the per-solution aggregates were last computed
-pub struct SolutionContext { pub tours_version: u8, pub may_have_empty_tours: bool, pub required_pending: bool, pub aggregates_for: Option<(u8, u8)> }
+#[derive(Clone, Copy)] pub struct Pending { pub any: bool }
+impl Pending { pub fn is_empty(&self) -> bool { !self.any } }
+pub struct SolutionContext { pub tours_version: u8, pub may_have_empty_tours: bool, pub required: Pending, pub aggregates_for: Option<(u8, u8)> }
 impl SolutionContext {
     /// assumed contract of remove_empty_routes: changes the set of tours iff there was an empty one
     pub(crate) fn remove_empty_routes(&mut self) { if self.may_have_empty_tours { self.tours_version = self.tours_version.wrapping_add(1); self.may_have_empty_tours = false; } }
@@ -20,7 +22,8 @@ impl GoalContext {
     pub fn accept_solution_state(&self, s: &mut SolutionContext) { s.aggregates_for = Some((self.id, s.tours_version)); }
 }
 pub struct Problem { pub goal: Arc<GoalContext> }
-pub struct Environment;
+pub trait Quota { fn is_reached(&self) -> bool; }
+pub struct Environment { pub quota: Option<Arc<dyn Quota>> }
 pub struct InsertionContext { pub problem: Arc<Problem>, pub solution: SolutionContext, pub environment: Arc<Environment> }
 impl InsertionContext {
     pub fn deep_copy(&self) -> Self { InsertionContext { problem: self.problem.clone(), solution: SolutionContext { ..self.solution }, environment: self.environment.clone() } }
@@ -30,20 +33,24 @@ impl Clone for SolutionContext { fn clone(&self) -> Self { SolutionContext { ..*
 impl Copy for SolutionContext {}
 pub enum UnassignmentInfo { Unknown }
 /// assumed contract of finalize_unassigned (U02c): moves pending jobs to the unassigned list; tours untouched
-pub fn finalize_unassigned(ic: &mut InsertionContext, _: UnassignmentInfo) { ic.solution.required_pending = false; }
+pub fn finalize_unassigned(ic: &mut InsertionContext, _: UnassignmentInfo) { ic.solution.required.any = false; }
 pub struct RefinementContext;
-/// assumed (weakest) contract of any recreate / ruin method: arbitrary change of the tours, aggregates in any state, may leave
-/// empty tours behind; the problem definition is not exchanged
+/// assumed contract of a ruin method: arbitrary change of the tours, aggregates in any state, may leave empty tours and pending jobs
+/// behind; the problem definition is not exchanged.
+/// assumed contract of a recreate method: arbitrary change of the tours, may leave an empty tour behind, the problem definition is
+/// not exchanged, and it returns what InsertionHeuristic::process returns - finalized (below: process_returns_finalized)
 pub trait Recreate { fn run(&self, refinement_ctx: &RefinementContext, insertion_ctx: InsertionContext) -> InsertionContext; }
 pub trait Ruin { fn run(&self, refinement_ctx: &RefinementContext, insertion_ctx: InsertionContext) -> InsertionContext; }
 pub trait HeuristicSearchOperator { type Context; type Objective; type Solution; fn search(&self, heuristic_ctx: &Self::Context, solution: &Self::Solution) -> Self::Solution; }
 #[cfg(kani)]
 fn havoc(mut ic: InsertionContext) -> InsertionContext {
-    ic.solution = SolutionContext { tours_version: kani::any(), may_have_empty_tours: kani::any(), required_pending: kani::any(), aggregates_for: if kani::any() { Some((kani::any(), kani::any())) } else { None } };
+    ic.solution = SolutionContext { tours_version: kani::any(), may_have_empty_tours: kani::any(), required: Pending { any: kani::any() }, aggregates_for: if kani::any() { Some((kani::any(), kani::any())) } else { None } };
     ic
 }
 #[cfg(kani)] pub struct AnyMethod;
-#[cfg(kani)] impl Recreate for AnyMethod { fn run(&self, _: &RefinementContext, ic: InsertionContext) -> InsertionContext { havoc(ic) } }
+#[cfg(kani)] impl Recreate for AnyMethod { fn run(&self, _: &RefinementContext, ic: InsertionContext) -> InsertionContext { let mut ic = havoc(ic); ic.solution.required.any = false; ic.solution.aggregates_for = Some((ic.problem.goal.id, ic.solution.tours_version)); ic } }
+#[cfg(kani)] pub struct AnyQuota;
+#[cfg(kani)] impl Quota for AnyQuota { fn is_reached(&self) -> bool { kani::any() } }
 #[cfg(kani)] impl Ruin for AnyMethod { fn run(&self, _: &RefinementContext, ic: InsertionContext) -> InsertionContext { havoc(ic) } }
 /// assumed contract of create_target_insertion_ctx (read off its body): a modified deep copy under an AMENDED goal (a different one)
 #[cfg(kani)]
@@ -54,7 +61,40 @@ fn create_target_insertion_ctx(original_ctx: &InsertionContext, _: Range<i32>, _
     ic
 }
 
+// environment of InsertionHeuristic::process: selectors select nothing observable, the evaluator answers anything, applying an answer
+// changes the tours (success) or the buckets (failure) and leaves the aggregates in any state
+pub struct Job; pub struct RouteContext; pub struct LegSelection;
+pub trait JobSelector { fn prepare(&self, _: &mut InsertionContext) {} fn select<'a>(&'a self, _: &'a InsertionContext) -> std::iter::Empty<&'a Job> { std::iter::empty() } }
+pub trait RouteSelector { fn prepare(&self, _: &mut InsertionContext) {} fn select<'a>(&'a self, _: &'a InsertionContext, _: &[&'a Job]) -> std::iter::Empty<&'a RouteContext> { std::iter::empty() } }
+pub trait ResultSelector {}
+pub struct InsertionSuccess; pub struct InsertionFailure;
+pub enum InsertionResult { Success(InsertionSuccess), Failure(InsertionFailure) }
+pub trait InsertionEvaluator { fn evaluate_all(&self, _: &InsertionContext, _: &[&Job], _: &[&RouteContext], _: &LegSelection, _: &(dyn ResultSelector)) -> InsertionResult; }
+pub static mut ROUNDS: u8 = 0;
+#[cfg(kani)]
+fn after_apply(ic: &mut InsertionContext) {
+    unsafe { ROUNDS += 1; }
+    ic.solution.required.any = if unsafe { ROUNDS } >= 2 { false } else { kani::any() };     // bound: at most 2 rounds
+    ic.solution.aggregates_for = if kani::any() { Some((kani::any(), kani::any())) } else { None };
+}
+#[cfg(kani)] pub(crate) fn apply_insertion_success(ic: &mut InsertionContext, _: InsertionSuccess) { ic.solution.tours_version = kani::any(); after_apply(ic); }
+#[cfg(kani)] fn apply_insertion_failure(ic: &mut InsertionContext, _: InsertionFailure, _: &[usize], _: &[Job]) { after_apply(ic); }
+fn copy_selection_data(_: &InsertionContext, _: &[&RouteContext], _: &[&Job]) -> (Vec<usize>, Vec<Job>) { (Vec::new(), Vec::new()) }
+/// assumed contract of prepare_insertion_ctx's first line: unassigned jobs become pending again
+pub(crate) fn prepare_insertion_ctx(insertion_ctx: &mut InsertionContext) {
+    insertion_ctx.solution.required.any = insertion_ctx.solution.required.any || any_bool();
+    insertion_ctx.problem.goal.accept_solution_state(&mut insertion_ctx.solution);
+}
+#[cfg(kani)] fn any_bool() -> bool { kani::any() }
+#[cfg(not(kani))] fn any_bool() -> bool { false }
+
 // ------------------------------------------------------------------ code under contract (verbatim from /repo)
+//@extract vrp-core/src/construction/heuristics/insertions.rs :: struct InsertionHeuristic
+//@end
+impl InsertionHeuristic {
+//@extract vrp-core/src/construction/heuristics/insertions.rs :: impl InsertionHeuristic#2/fn process
+//@end
+}
 impl InsertionContext {
 //@extract vrp-core/src/construction/heuristics/context.rs :: impl InsertionContext/fn restore
 //@end
@@ -74,16 +114,16 @@ impl InsertionContext {
 mod h {
     use super::*;
     fn any_parent() -> InsertionContext {
-        let ic = InsertionContext { problem: Arc::new(Problem { goal: Arc::new(GoalContext { id: kani::any() }) }), solution: SolutionContext { tours_version: 0, may_have_empty_tours: false, required_pending: false, aggregates_for: None }, environment: Arc::new(Environment) };
+        let ic = InsertionContext { problem: Arc::new(Problem { goal: Arc::new(GoalContext { id: kani::any() }) }), solution: SolutionContext { tours_version: 0, may_have_empty_tours: false, required: Pending { any: false }, aggregates_for: None }, environment: Arc::new(Environment { quota: if kani::any() { Some(Arc::new(AnyQuota)) } else { None } }) };
         havoc(ic)
     }
     fn post(parent: &InsertionContext, before: SolutionContext, goal: u8, r: &InsertionContext) {
         assert!(r.fresh(), "post_returned_aggregates_computed_after_last_change_of_tours_under_returned_goal");
         assert!(r.problem.goal.id == goal, "post_returned_under_the_original_problem_definition");
-        assert!(!r.solution.required_pending, "post_no_job_left_pending");
+        assert!(r.solution.required.is_empty(), "post_no_job_left_pending");
         assert!(!r.solution.may_have_empty_tours || r.solution.aggregates_for.is_some(), "post_sanity");
         assert!(parent.problem.goal.id == goal && parent.solution.tours_version == before.tours_version && parent.solution.aggregates_for == before.aggregates_for
-                && parent.solution.may_have_empty_tours == before.may_have_empty_tours && parent.solution.required_pending == before.required_pending, "post_parent_left_unchanged");
+                && parent.solution.may_have_empty_tours == before.may_have_empty_tours && parent.solution.required.any == before.required.any, "post_parent_left_unchanged");
     }
     /// C05/C04 (loop-free, full ghost domain: complete relative to the assumed callee contracts)
     #[kani::proof]
@@ -101,6 +141,20 @@ mod h {
         let r = RuinAndRecreate { ruin: Arc::new(AnyMethod), recreate: Arc::new(AnyMethod) }.search(&RefinementContext, &parent);
         post(&parent, before, goal, &r);
         kani::cover!(r.solution.tours_version != before.tours_version);
+    }
+    /// what every recreate method built on the generalized insertion heuristic returns is finalized: nothing pending, aggregates
+    /// computed after the last applied insertion, whether the loop ends by exhaustion or by quota (bounded: <= 2 rounds)
+    struct AnyEvaluator; impl InsertionEvaluator for AnyEvaluator { fn evaluate_all(&self, _: &InsertionContext, _: &[&Job], _: &[&RouteContext], _: &LegSelection, _: &(dyn ResultSelector)) -> InsertionResult { if kani::any() { InsertionResult::Success(InsertionSuccess) } else { InsertionResult::Failure(InsertionFailure) } } }
+    struct Sel; impl JobSelector for Sel {} impl RouteSelector for Sel {} impl ResultSelector for Sel {}
+    #[kani::proof] #[kani::unwind(4)]
+    fn process_returns_finalized() {
+        let ic = any_parent();
+        let goal = ic.problem.goal.id;
+        let r = InsertionHeuristic { insertion_evaluator: Box::new(AnyEvaluator) }.process(ic, &Sel, &Sel, &LegSelection, &Sel);
+        assert!(r.fresh() && r.problem.goal.id == goal, "post_process_returns_fresh_aggregates");
+        assert!(r.solution.required.is_empty(), "post_process_leaves_nothing_pending");
+        kani::cover!(unsafe { ROUNDS } == 2);
+        kani::cover!(unsafe { ROUNDS } == 0);
     }
     /// restore() alone: aggregates are computed, under the current goal, and no empty tour remains; they describe the tours as they
     /// were BEFORE empty tours were dropped (so a caller that may have emptied a tour has to finalize afterwards)
